@@ -45,6 +45,12 @@ claimed = {
  "C02": ("model_checking", "same execution space as C01 with a convergence/stability oracle, plus complete closure of the LAS bookkeeping state space with a from-anywhere differential oracle",
    "(a) every configuration/schedule of the C01 space without loads: by the bound T_conv of DESIGN 5.4 every online station is in the ring, every LAS equals the online set, NS/PS are the cyclic neighbours, tokens circulate in ascending order without repeats, and this stays true over the stability window (sampled every 3 slot times). (b) the real TokenRing type is closed under all witness/claim/set/remove operations over an 8-address universe for TS in {0,2,5} (672 states); neighbours invariant in every state, invalid addresses never change the state, and from EVERY reachable state three rotations of any of the 32 rings converge to exactly that ring.",
    "T_conv is a generous bound; the largest observed/bound ratio is reported in the evidence.", "6 C02"),
+ "C18": ("model_checking", "explicit-state BFS over real LiveList / DpScanner state x reference population under all answer patterns at tracked addresses",
+   "BFS over (application state, reference membership, loss budget, sweep) for scanner addresses {0,7,125}; at every probe of a tracked address {0,TS,TS+1,62,125(,2,124)} the environment answers, is silent, loses the reply, or (DP scanner) sends one of 4 invalid replies; probe order 0..125, membership after every probe, exact Discovered/Found/Lost events and idents are compared with the reference; six populations are repeated under a real FdlActiveStation on BusSim.",
+   "Only the tracked addresses vary; SC as reply to a status request is outside the alphabet.", "6 C18"),
+ "C20": ("model_checking", "per-layout BFS over operation sequences of the real PrmBuilder against a reference bit packer",
+   "All layouts of 1-2 fields from 12 data types at offsets {0,1} (shared bytes, overlapping multi-byte fields) over 4 constant backgrounds, with boundary defaults, min-max/enum constraints and text tables; all set_prm / set_prm_from_text sequences up to depth 3 (2 for pairs in quick) with boundary and out-of-range values, unknown names and texts; every resulting block is compared with a mask-merge big-endian reference packer, errors must leave the block unchanged.",
+   "Known finding F9 (BitArea clobbers its byte) is reported as KNOWN-FINDING; invalid type descriptors are not generated.", "6 C20"),
 }
 not_applicable_reasons = {}
 
